@@ -44,6 +44,11 @@ func runC20(c *core.Ctx) core.Meta {
 	c.BuildSSA()
 	prov := core.NewProv(c)
 
+	st14 := c.Rule("R20.14", "a message that a component handled is taken off its port: in every handler of the four levels, from PeekIncoming (message present) no path reaches `return true` without RetrieveIncoming on the same port (callees of the package followed): a thread block or a completion that stays at the head of the port is accounted again on every tick, the counters run past zero and the run never ends", 4)
+	for _, rel := range []string{"nvidia/subcore", "nvidia/sm", "nvidia/gpu", "nvidia/driver"} {
+		checkPeekedHandledConsumed(c, st14, "R20.14", NewPkgInfo(c, rel), "the same message is handled again on the next tick (a thread block is counted finished once per cycle, the level above sees its outstanding count pass zero)")
+	}
+
 	st2 := c.Rule("R20.2", "completion propagation: every decrement of an outstanding-work counter is followed by the ==0 test that raises the finished counter of the level; a finished unit is reported upward exactly once (finished counter decremented only after a successful Send); the unit that reported is returned to the free list", 6)
 	st3 := c.Rule("R20.3", "zero-work completion: a function that loads an outstanding-work counter from an input quantity that may be 0 (instruction count, number of warps / thread blocks) must itself raise the finished counter when that quantity is 0, because the decrement path is never entered for it", 3)
 	st4 := c.Rule("R20.4", "conservation: the outstanding-work counter is loaded with exactly the input quantity (one increment per listed child, or the instruction count itself) and the statistics counters grow by the same amount; dispatch sends the head of the pending list to the head of the free list and pops exactly those two", 6)
